@@ -68,6 +68,8 @@ class ParamDict:
         self.make = make
 
     def get(self, key):
+        if key in getattr(self, "_popped", ()):
+            raise AnalysisError("parameter %r was removed from this copy" % key)
         if key in self.entries:
             return self.entries[key]
         if self.make is not None:
@@ -75,6 +77,13 @@ class ParamDict:
             self.entries[key] = v
             return v
         raise AnalysisError("parameter %r not provided" % key)
+
+
+def _pd_copy(entries, present=None, make=None):
+    """a ParamDict that is a COPY made by the analysed code (dict(param), param.copy(), {**param}, copy.copy(param))"""
+    d = ParamDict(entries, present=present, make=make)
+    d._is_copy = True
+    return d
 
 
 class SelfObj:
@@ -699,10 +708,7 @@ class Interp:
         if node.id in mod.assigns and isinstance(mod.assigns[node.id], ast.Call) and isinstance(mod.assigns[node.id].func, ast.Name) \
                 and mod.assigns[node.id].func.id == "object" and not mod.assigns[node.id].args:
             # a private sentinel `_MISSING = object()`: one object, equal to nothing else
-            key = (mod.short, node.id)
-            if not hasattr(self, "_sentinels"):
-                self._sentinels = {}
-            return self._sentinels.setdefault(key, ObjStub("sentinel " + node.id, {}))
+            return self._sentinel((mod.short, node.id), node.id)
         raise AnalysisError("%s:%d unknown name %s" % (func.qualname, node.lineno, node.id))
 
     def _super_class(self, call, env, func, attr):
@@ -731,6 +737,15 @@ class Interp:
             return BoundMethod(env[func.params[0]], c.methods[node.attr])
         return self._attr_of(self.eval(node.value, env, func, depth), node.attr, func, node, depth)
 
+    @staticmethod
+    def _is_sentinel_expr(expr):
+        return isinstance(expr, ast.Call) and isinstance(expr.func, ast.Name) and expr.func.id == "object" and not expr.args and not expr.keywords
+
+    def _sentinel(self, key, name):
+        if not hasattr(self, "_sentinels"):
+            self._sentinels = {}
+        return self._sentinels.setdefault(key, ObjStub("sentinel " + name, {}))
+
     def _attr_of(self, obj, a, func, node, depth):
         if isinstance(obj, SelfObj):
             if a in obj.attrs:
@@ -742,6 +757,8 @@ class Interp:
                 return f if f.is_static else BoundMethod(obj, f)
             c, expr = self.p.class_attr(obj.cls, a)
             if expr is not None:
+                if self._is_sentinel_expr(expr):
+                    return self._sentinel((c.qualname, a), a)
                 return self.eval(expr, {}, func, depth)       # class-level constant / table read through the instance
             raise AnalysisError("%s:%d attribute self.%s unknown to the analysis" % (func.qualname, node.lineno, a))
         if isinstance(obj, ModuleRef):
@@ -752,6 +769,8 @@ class Interp:
             if getattr(obj, "cls", None) is not None:
                 c, expr = self.p.class_attr(obj.cls, a)
                 if expr is not None:
+                    if self._is_sentinel_expr(expr):
+                        return self._sentinel((c.qualname, a), a)
                     return self.eval(expr, {}, func, depth)       # class-level constant / table
                 g = self.p.resolve(obj.cls, a)
                 if g is not None:
@@ -777,7 +796,7 @@ class Interp:
             return ("method", obj, a)
         if type(obj) is dict and a in ("update", "setdefault", "pop", "copy"):
             return ("method", obj, a)
-        if isinstance(obj, ParamDict) and a in ("get", "keys"):
+        if isinstance(obj, ParamDict) and a in ("get", "keys", "copy", "pop"):
             return ("method", obj, a)
         if a in ("copy", "append", "keys", "astype") or a == "T":
             return ("method", obj, a)
@@ -838,7 +857,7 @@ class Interp:
             present = set()
             for l in layers:
                 present |= set(l.keys()) if isinstance(l, dict) else set(l.present) | set(l.entries)
-            return ParamDict({}, present=present, make=lookup)
+            return _pd_copy({}, present=present, make=lookup)
         out = {}
         for k, v in zip(node.keys, node.values):
             out[self.eval(k, env, func, depth)] = self.eval(v, env, func, depth)
@@ -1254,6 +1273,7 @@ class Interp:
         args = [self.eval(a, env, func, depth) for a in node.args]
         kwargs = {k.arg: self.eval(k.value, env, func, depth) for k in node.keywords if k.arg}
         ln = node.lineno
+        self._call_site = (node, env, depth)
         if isinstance(f, BoundMethod):
             return self.call_function(f.func, [f.selfobj] + args, kwargs, depth + 1)
         if hasattr(f, "node") and hasattr(f, "module"):   # FuncInfo (module-level helper)
@@ -1290,7 +1310,18 @@ class Interp:
             if name == "keys" and isinstance(obj, ParamDict):
                 return sorted(obj.present)
             if name == "copy" and isinstance(obj, ParamDict) and not args:
-                return ParamDict({}, present=set(obj.present) | set(obj.entries), make=obj.get)
+                return _pd_copy({}, present=set(obj.present) | set(obj.entries), make=obj.get)
+            if name == "pop" and isinstance(obj, ParamDict) and args and isinstance(args[0], str) and getattr(obj, "_is_copy", False):
+                # on a COPY of the parameter dictionary (dict(param), param.copy(), {**param}): the entry, or the default
+                if args[0] in obj.present or args[0] in obj.entries:
+                    v = obj.get(args[0])
+                    obj.present.discard(args[0])
+                    obj.entries.pop(args[0], None)
+                    obj._popped = getattr(obj, "_popped", set()) | {args[0]}
+                    return v
+                if len(args) > 1:
+                    return args[1]
+                raise AnalysisError("%s:%d parameter %r not provided" % (func.qualname, ln, args[0]))
             if name == "get" and isinstance(obj, ParamDict):
                 if args[0] in obj.present or (args[0] in obj.entries):
                     return obj.get(args[0])
@@ -1373,8 +1404,37 @@ class Interp:
                 out.x = r.x if pc is None else self.dom.where(pc, r.x, out.x)
                 out.y = r.y if pc is None else self.dom.where(pc, r.y, out.y)
                 return out
+            # out= a plain LOCAL NAME holding a point-wise array value: the name now denotes the result (other names bound to
+            # the same array are not followed: refused when the name was bound from another name or an attribute)
+            site = getattr(self, "_call_site", None)
+            if site is not None and site[0] is node and (self.dom.is_value(out) or _is_conc(out)) and self.is_num(r) and not isinstance(r, SArr):
+                kw = [k.value for k in node.keywords if k.arg == "out"]
+                if len(kw) == 1 and isinstance(kw[0], ast.Name) and kw[0].id in site[1] and self._own_local(kw[0].id, func, node.lineno):
+                    new = self.lift(r) if pc is None else self.dom.where(pc, self.lift(r), self.lift(out))
+                    site[1][kw[0].id] = new
+                    return new
             raise AnalysisError("%s:%d out= into a value the analysis cannot update in place" % (func.qualname, node.lineno))
         return self._call_builtin(name, args, kwargs, node, func)
+
+    def _own_local(self, name, func, before_line):
+        """the local `name` holds an array of its own: every assignment to it in the function is the result of an operation or a
+        call (a new array), never another name, an attribute, a subscript or a parameter"""
+        if name in func.params:
+            return False
+        ok = False
+        for n in ast.walk(func.node):
+            if isinstance(n, ast.Assign):
+                for t in n.targets:
+                    for e in (t.elts if isinstance(t, (ast.Tuple, ast.List)) else [t]):
+                        if isinstance(e, ast.Name) and e.id == name:
+                            if isinstance(t, (ast.Tuple, ast.List)) or not isinstance(n.value, (ast.BinOp, ast.UnaryOp, ast.Call)):
+                                return False
+                            if isinstance(n.value, ast.Call) and isinstance(n.value.func, ast.Attribute) and n.value.func.attr in ("asarray", "asanyarray", "reshape", "ravel", "view", "squeeze", "transpose", "atleast_1d"):
+                                return False
+                            ok = True
+            elif isinstance(n, (ast.For, ast.comprehension)) and any(isinstance(x, ast.Name) and x.id == name for x in ast.walk(n.target)):
+                return False
+        return ok
 
     def _call_builtin(self, name, args, kwargs, node, func):
         d = self.dom
@@ -1442,7 +1502,7 @@ class Interp:
             if base == "dict" and len(args) == 1 and isinstance(args[0], ParamDict):
                 # a copy of the parameter dictionary (with overrides): the same entries, another object
                 src, over = args[0], dict(kwargs)
-                return ParamDict({}, present=set(src.present) | set(src.entries) | set(over),
+                return _pd_copy({}, present=set(src.present) | set(src.entries) | set(over),
                                  make=lambda key: over[key] if key in over else src.get(key))
             if base == "dict" and len(args) == 1 and isinstance(args[0], (list, tuple)) and all(isinstance(kv, (list, tuple)) and len(kv) == 2 and isinstance(kv[0], (str, int)) for kv in args[0]):
                 return dict([(kv[0], kv[1]) for kv in args[0]], **kwargs)
@@ -1469,7 +1529,7 @@ class Interp:
             import copy as _copy
             a = args[0]
             if isinstance(a, ParamDict):
-                return ParamDict({}, present=set(a.present) | set(a.entries), make=a.get)
+                return _pd_copy({}, present=set(a.present) | set(a.entries), make=a.get)
             if isinstance(a, (dict, list)):
                 c = _copy.copy(a)
                 if name == "copy.deepcopy":
@@ -1531,6 +1591,9 @@ class Interp:
             return r
         if base in ("minimum", "maximum"):
             return self.binary(base, args[0], args[1], ln)
+        if base in ("add", "subtract", "multiply", "divide", "true_divide") and len(args) == 2:
+            op = {"add": ast.Add(), "subtract": ast.Sub(), "multiply": ast.Mult(), "divide": ast.Div(), "true_divide": ast.Div()}[base]
+            return self.binop(op, args[0], args[1], ln)
         if base == "where" and any(isinstance(x, SArr) for x in args):
             ops = [x if isinstance(x, SArr) else self.lift(x) for x in args]
             return self.stn.zip_map(lambda c, a, b: self.merge(c, a, b), *ops)
